@@ -28,6 +28,7 @@ import (
 	"sort"
 	"strings"
 	"sync"
+	"sync/atomic"
 	"time"
 
 	"github.com/33cn/chain33/client"
@@ -398,7 +399,7 @@ func serveGRPC(fl *fakeListener, rq reqSpec) outcome {
 	fl.mu.Lock()
 	fl.next = a
 	fl.mu.Unlock()
-	ctx, cancel := context.WithTimeout(context.Background(), 10*time.Second)
+	ctx, cancel := context.WithTimeout(context.Background(), 45*time.Second)
 	defer cancel()
 	conn, err := grpc.DialContext(ctx, "passthrough:///verif", grpc.WithContextDialer(func(ctx context.Context, _ string) (net.Conn, error) {
 		return fl.Listener.DialContext(ctx)
@@ -623,6 +624,10 @@ func genClientForm(rng *lib.Rng, s cfgSpec, canonical bool) (remote string, ct c
 	}
 	ct.IP = host
 	ct.Valid = true
+	// loopback is decided from the address itself (listed entries may be loopback addresses)
+	if a.WithZone("").Unmap().IsLoopback() {
+		ct.Loopback = true
+	}
 	if i := strings.Index(host, "%"); i >= 0 {
 		peerZone = host[i+1:]
 	}
@@ -1144,6 +1149,7 @@ func run(c *lib.Ctx) {
 	dims := map[string]map[string]int{}
 	hitTotals := map[string]int{}
 	shapeCount := map[string]int{}
+	var unclear atomic.Int64
 	lib.Parallel(nCfg, 12, func(i int) {
 		if c.Skip(i) {
 			return
@@ -1217,7 +1223,7 @@ func run(c *lib.Ctx) {
 			reqs = append(reqs, pj, pg, pe)
 		}
 
-		res := c.Child("serve", childIn{Spec: spec, Reqs: reqs}, lib.ChildOpts{Timeout: 4 * time.Minute})
+		res := c.Child("serve", childIn{Spec: spec, Reqs: reqs}, lib.ChildOpts{Timeout: 8 * time.Minute})
 		c.Count("child_wall_ms", res.WallMs)
 		if os.Getenv("VERIF_DEBUG") != "" {
 			fmt.Fprintf(os.Stderr, "cfg %d child %dms: %s\n", i, res.WallMs, tail(res.Stderr, 300))
@@ -1334,6 +1340,12 @@ func run(c *lib.Ctx) {
 					on   bool
 				}
 				sides := []side{{"jrpc", len(co.Outcomes[p.j].Hits) > 0, rj.Probe}, {"grpc", len(co.Outcomes[p.g].Hits) > 0, rg.Probe}}
+				if g := co.Outcomes[p.g]; rg.Probe && len(g.Hits) == 0 && !strings.Contains(g.Err, "not authorized") {
+					// neither served nor refused by the gate (transport error under load): not comparable
+					sides[1].on = false
+					cnt["equivalence_grpc_unclear(transport)"]++
+					unclear.Add(1)
+				}
 				for _, sd := range sides {
 					if !sd.on {
 						cnt["equivalence_skipped_no_allowed_method_"+sd.name]++
@@ -1382,6 +1394,9 @@ func run(c *lib.Ctx) {
 		}
 		mu.Unlock()
 	})
+	if n := unclear.Load(); n > 20 {
+		c.Inconclusive("%d gRPC probe calls ended with a transport error instead of an answer from the gate", n)
+	}
 	c.Extra("requests_per_shape_dimension", dims)
 	c.Extra("sentinel_invocations_observed", hitTotals)
 	c.Extra("configurations_per_whitelist_shape", shapeCount)
